@@ -568,14 +568,19 @@ func (s *segment) Delete() error {
 	}
 	s.Lock()
 	defer s.Unlock()
-	if exists(s.log.Name()) {
-		if err := os.Remove(s.log.Name()); err != nil {
-			return err
-		}
+	// The log file goes first: an index without its log is discarded when the
+	// log is opened. For a replacement segment (.cleaned, .truncated) it is the
+	// other way round, since recovery takes a replacement index without its
+	// replacement log for a replacement that was already half swapped in.
+	paths := []string{s.log.Name(), s.Index.Name()}
+	if s.suffix != "" {
+		paths = []string{s.Index.Name(), s.log.Name()}
 	}
-	if exists(s.Index.Name()) {
-		if err := os.Remove(s.Index.Name()); err != nil {
-			return err
+	for _, path := range paths {
+		if exists(path) {
+			if err := os.Remove(path); err != nil {
+				return err
+			}
 		}
 	}
 	return nil
